@@ -1,0 +1,16 @@
+//go:build verif
+// +build verif
+
+package hls
+
+import (
+	"sync/atomic"
+	"time"
+)
+
+// VerifAgeLastAccess moves the playlist's last access time d into the past (build tag verif
+// only): the C05 harness cannot wait for minutes to see the idle-close task treat an old HLS
+// access as old.
+func (pl *Playlist) VerifAgeLastAccess(d time.Duration) {
+	atomic.AddInt64(&pl.lastAccessTime, -int64(d))
+}
